@@ -192,7 +192,7 @@ STAGES = [
      ('C07_refuted_rpy2q.v', {'finding': 'rpy2q/generic-differs'})],
     ['C07.v'],
 ]
-COQ_TIMEOUT = 240
+COQ_TIMEOUT = 100
 
 
 # ------------------------------------------------------------------------------------------
@@ -472,10 +472,10 @@ def o_twin(inp):
             return r
         return _twin(inp, form)
     pre = {}
-    r = _shared(inp, pre)               # call sequences on ONE caller-owned array (row views), both orders, each side twice
+    r = _shared(inp, pre) if len(inp['rows']) <= 5 else None               # call sequences on ONE caller-owned array (row views), both orders, each side twice
     if r is not None:
         return r
-    return _twin(inp, form, pre)
+    return _twin(inp, form, pre or None)
 
 
 def _same_outcome(x, y):
